@@ -155,7 +155,7 @@ void make_items(const Options& o, std::vector<Item>& items)
         // exclusive side with locking enabled
         if (!in.enabled || in.deferred || in.name.rfind("atomic_guarded", 0) == 0) continue;
         std::vector<OpI> al;
-        for (int c : {X_LOCK, X_LOCK_UNLOCK, X_TRY, X_TRY_FOR, X_TRY_UNTIL, LOAD, STORE, ASSIGN, MODIFY, MODIFY_RET})
+        for (int c : {X_LOCK, X_LOCK_UNLOCK, X_TRY, X_TRY_FOR, X_TRY_UNTIL, LOAD, STORE, ASSIGN, MODIFY, MODIFY_RET, CONVERT})
             if (in.has(c)) al.push_back(OpI{(uint8_t)c, (c == STORE || c == ASSIGN) ? -1 : 0});
         auto any = [](const Prog&) { return true; };
         gen(o, items, ii, al, {1, 1}, 3, 6, any);
@@ -218,6 +218,7 @@ void make_items(const Options& o, std::vector<Item>& items)
             continue;
         std::vector<OpI> al;
         if (in.has(LOAD)) al.push_back(OpI{LOAD, 0});
+        if (in.has(CONVERT)) al.push_back(OpI{CONVERT, 0});
         for (int v = 1; v <= 2; v++) {
             if (in.has(STORE)) al.push_back(OpI{STORE, v});
             if (in.has(ASSIGN)) al.push_back(OpI{ASSIGN, v});
@@ -239,7 +240,7 @@ void make_items(const Options& o, std::vector<Item>& items)
         auto reduced = [&](const Prog& p) {
             // quick: two-op thread against a single op, second op a reading one
             uint8_t c = p.threads[0][1].code;
-            return c == LOAD || c == EXCHANGE || c == CAS;
+            return c == LOAD || c == EXCHANGE || c == CAS || c == CONVERT;
         };
         if (thorough) gen(o, items, ii, al, {2, 1}, 2, 3, any);
         else if (al.size() <= 8) gen(o, items, ii, al, {2, 1}, 2, 3, reduced);
